@@ -1,12 +1,123 @@
 package wr
 
 import (
+	"fmt"
+	"time"
+
 	kafka "github.com/segmentio/kafka-go"
 
 	"verif/engine/qx"
 )
 
 func m(p int) msgSpec { return msgSpec{P: p} }
+
+// Error-code classes of a produce answer (the partition error code of the response; nothing is applied):
+// -1 is the only negative code brokers send (UNKNOWN_SERVER_ERROR), 1 the smallest positive one (permanent),
+// 6 is retriable, 7 is retriable and the only one with Timeout() == true, 10 is permanent. The wider alphabet
+// adds another negative value, two more retriable ones (19, and 20 "applied to fewer replicas"), the last code of the
+// library's table (106, retriable), the first one beyond it and the extremes of the int16 field.
+var (
+	codesQuick    = []string{"err:-1", "err:1", "err:6", "err:7", "err:10"}
+	codesThorough = []string{"err:-1", "err:1", "err:6", "err:7", "err:10", "err:-2", "err:19", "err:20", "err:106", "err:107", "err:32767", "err:-32768"}
+)
+
+// The scenario class "count limit and bytes limit both acting in one call": one partition, BatchBytes 100,
+// a small BatchSize, and one WriteMessages call whose message sizes are a word over the alphabet
+//
+//	s  31 bytes (three fit in a batch by bytes)      h  51 bytes (two of them do not fit together)
+//	f 100 bytes (fills a batch exactly on its own)    c  69 bytes (s+c fills a batch exactly)
+//
+// (Message.totalSize of a message with a 1-byte key and the value "tXcYmZ|"+pad is 31+pad). Every word up to a
+// length is enumerated and kept when, by the boring model of batching below, some batch of the call is closed
+// because it reached BatchSize and some batch is closed because of BatchBytes (the next message did not fit,
+// or the bytes were reached exactly): sync, async, and async after a call that left one small message in the
+// open batch. Each word is a scenario of its own, explored with the answer/fault alphabet like the others.
+var sizePad = map[byte]int{'s': 0, 'h': 20, 'f': 69, 'c': 38}
+
+const bothLimitsBytes = 100
+
+// limitsActing runs the reference model of batching over the sizes of prefix+word.
+func limitsActing(prefix, word string, batchSize int) (byCount, byBytes bool) {
+	n, bytes := 0, 0
+	for _, ch := range []byte(prefix + word) {
+		sz := 31 + sizePad[ch]
+		if n > 0 && bytes+sz > bothLimitsBytes {
+			byBytes = true
+			n, bytes = 0, 0
+		}
+		n++
+		bytes += sz
+		if n >= batchSize || bytes >= bothLimitsBytes {
+			byCount = byCount || n >= batchSize
+			byBytes = byBytes || bytes >= bothLimitsBytes
+			n, bytes = 0, 0
+		}
+	}
+	return
+}
+
+func words(alpha string, maxLen int) []string {
+	var out []string
+	cur := []string{""}
+	for l := 1; l <= maxLen; l++ {
+		var next []string
+		for _, w := range cur {
+			for _, ch := range []byte(alpha) {
+				next = append(next, w+string(ch))
+			}
+		}
+		out = append(out, next...)
+		cur = next
+	}
+	return out
+}
+
+func bothLimits(prop string, thorough bool, faults []string, bound int) []qx.SuiteItem {
+	type class struct {
+		alpha     string
+		maxLen    int
+		batchSize int
+		bound     int
+	}
+	classes := []class{{"shf", 4, 2, bound}}
+	if thorough {
+		// the quick class one deviation deeper, the wider alphabet, longer words and BatchSize 3 at the quick depth
+		classes = []class{{"shf", 4, 2, bound}, {"shfc", 4, 2, bound - 1}, {"shfc", 4, 3, bound - 1}, {"shf", 5, 2, bound - 1}, {"shf", 5, 3, bound - 1}}
+	}
+	var items []qx.SuiteItem
+	seen := map[string]bool{}
+	for _, c := range classes {
+		for _, w := range words(c.alpha, c.maxLen) {
+			for _, mode := range []string{"sync", "async", "async-after-s"} {
+				prefix := ""
+				if mode == "async-after-s" {
+					prefix = "s"
+				}
+				if cnt, byt := limitsActing(prefix, w, c.batchSize); !cnt || !byt {
+					continue
+				}
+				name := fmt.Sprintf("both-limits-bs%d-%s-%s", c.batchSize, mode, w)
+				if seen[name] {
+					continue
+				}
+				seen[name] = true
+				var calls []callSpec
+				if prefix != "" {
+					calls = append(calls, callSpec{Msgs: []msgSpec{{P: 0, Size: sizePad['s']}}})
+				}
+				var msgs []msgSpec
+				for _, ch := range []byte(w) {
+					msgs = append(msgs, msgSpec{P: 0, Size: sizePad[ch]})
+				}
+				calls = append(calls, callSpec{Msgs: msgs})
+				s := &WS{Name: name, BatchSize: c.batchSize, BatchBytes: bothLimitsBytes, MaxAttempts: 2, Acks: kafka.RequireOne, WriterTopic: "A",
+					Async: mode != "sync", Threads: [][]callSpec{calls}, Faults: faults}
+				items = append(items, qx.SuiteItem{Scn: s.Scenario(prop), Bound: c.bound, Whole: true, MinShare: 30 * time.Second})
+			}
+		}
+	}
+	return items
+}
 
 func Suite(prop, tier string) []qx.SuiteItem {
 	var items []qx.SuiteItem
@@ -28,27 +139,45 @@ func Suite(prop, tier string) []qx.SuiteItem {
 		b = 4
 	}
 	faults := []string{"err:6", "err:10", "lost", "cut", "stall", "stall-applied"}
+	codes, cb := codesQuick, 2
+	if thorough {
+		cb = 3
+		codes = codesThorough
+	}
+	// in the wider tier the negative code is also mixed into the full fault alphabet of one sync and one async main scenario
+	faultsWide := faults
+	if thorough {
+		faultsWide = []string{"err:-1", "err:6", "err:10", "lost", "cut", "stall", "stall-applied"}
+	}
 	switch prop {
 	case "C01", "C07":
+		// the many small scenarios of the both-limits class come first: each is explored by one shard alone
+		items = append(items, bothLimits(prop, thorough, []string{"err:-1", "err:6", "lost"}, b-1)...)
+		// every class of produce error code, against a retrying sync writer and an async one
+		add(&WS{Name: "error-codes-sync-att2", BatchSize: 2, MaxAttempts: 2, Acks: kafka.RequireAll, WriterTopic: "A",
+			Threads: [][]callSpec{{{Msgs: []msgSpec{m(0), m(0), m(1)}}, {Msgs: []msgSpec{m(0)}}}}, Faults: append(append([]string{}, codes...), "lost")}, cb)
+		add(&WS{Name: "error-codes-async-att2", BatchSize: 2, MaxAttempts: 2, Acks: kafka.RequireOne, WriterTopic: "A", Async: true,
+			Threads: [][]callSpec{{{Msgs: []msgSpec{m(0), m(0), m(1)}}, {Msgs: []msgSpec{m(0)}}}}, Faults: append(append([]string{}, codes...), "lost")}, cb)
 		add(&WS{Name: "sync-2thr-bs2", BatchSize: 2, MaxAttempts: 2, Acks: kafka.RequireOne, WriterTopic: "A",
 			Threads: [][]callSpec{{{Msgs: []msgSpec{m(0), m(1), m(0)}}}, {{Msgs: []msgSpec{m(0)}}, {Msgs: []msgSpec{m(0), m(0)}}}}, Faults: faults}, b)
 		add(&WS{Name: "sync-1thr-bs1-att3", BatchSize: 1, MaxAttempts: 3, Acks: kafka.RequireAll, WriterTopic: "A",
-			Threads: [][]callSpec{{{Msgs: []msgSpec{m(0), m(0), m(1)}}, {Msgs: []msgSpec{m(0)}}}}, Faults: faults}, b)
+			Threads: [][]callSpec{{{Msgs: []msgSpec{m(0), m(0), m(1)}}, {Msgs: []msgSpec{m(0)}}}}, Faults: faultsWide}, b)
 		add(&WS{Name: "async-1thr-bs2", BatchSize: 2, MaxAttempts: 2, Acks: kafka.RequireOne, WriterTopic: "A", Async: true,
-			Threads: [][]callSpec{{{Msgs: []msgSpec{m(0)}}, {Msgs: []msgSpec{m(0), m(0)}}, {Msgs: []msgSpec{m(1), m(0)}}}}, Faults: faults}, b)
+			Threads: [][]callSpec{{{Msgs: []msgSpec{m(0)}}, {Msgs: []msgSpec{m(0), m(0)}}, {Msgs: []msgSpec{m(1), m(0)}}}}, Faults: faultsWide}, b)
 		add(&WS{Name: "sync-msgtopic-2topics", BatchSize: 3, MaxAttempts: 2, Acks: kafka.RequireOne, Topics: map[string]int{"A": 2, "B": 1},
-			Threads: [][]callSpec{{{Msgs: []msgSpec{{P: 0, Topic: "A"}, {P: 0, Topic: "B"}, {P: 1, Topic: "A"}}}}, {{Msgs: []msgSpec{{P: 0, Topic: "B"}}}}}, Faults: []string{"err:6", "err:10", "lost"}}, b)
+			Threads: [][]callSpec{{{Msgs: []msgSpec{{P: 0, Topic: "A"}, {P: 0, Topic: "B"}, {P: 1, Topic: "A"}}}}, {{Msgs: []msgSpec{{P: 0, Topic: "B"}}}}}, Faults: []string{"err:-1", "err:6", "err:10", "lost"}}, b)
 		add(&WS{Name: "fine-sync-2thr", BatchSize: 2, MaxAttempts: 2, Acks: kafka.RequireOne, WriterTopic: "A", Fine: true,
 			Threads: [][]callSpec{{{Msgs: []msgSpec{m(0)}}}, {{Msgs: []msgSpec{m(0), m(0)}}}}, Faults: []string{"err:6", "lost"}}, b)
 		add(&WS{Name: "fine-async-1thr", BatchSize: 2, MaxAttempts: 2, Acks: kafka.RequireOne, WriterTopic: "A", Fine: true, Async: true,
 			Threads: [][]callSpec{{{Msgs: []msgSpec{m(0)}}, {Msgs: []msgSpec{m(0), m(0)}}}}, Faults: []string{"err:6", "lost"}}, b)
 		// several batches of one partition queued behind a slow or failing one (the queue holds more than two)
 		add(&WS{Name: "async-1thr-bs1-5batches", BatchSize: 1, MaxAttempts: 2, Acks: kafka.RequireOne, WriterTopic: "A", Async: true,
-			Threads: [][]callSpec{{{Msgs: []msgSpec{m(0), m(0), m(0), m(0), m(0)}}}}, Faults: []string{"err:6", "lost"}}, b-1)
+			Threads: [][]callSpec{{{Msgs: []msgSpec{m(0), m(0), m(0), m(0), m(0)}}}}, Faults: []string{"err:-1", "err:6", "lost"}}, b-1)
 		add(&WS{Name: "sync-1call-bs1-4batches", BatchSize: 1, MaxAttempts: 2, Acks: kafka.RequireOne, WriterTopic: "A",
-			Threads: [][]callSpec{{{Msgs: []msgSpec{m(0), m(0), m(0), m(0)}}}}, Faults: []string{"err:6", "lost"}}, b-1)
+			Threads: [][]callSpec{{{Msgs: []msgSpec{m(0), m(0), m(0), m(0)}}}}, Faults: []string{"err:-1", "err:6", "lost"}}, b-1)
 		items = append(items, qx.SuiteItem{Scn: transportScenario(prop, b), Bound: b})
 	case "C08":
+		items = append(items, bothLimits(prop, thorough, []string{"err:6", "lost"}, b-1)...)
 		// Message.totalSize of a message with 1-byte key and value "tXcYmZ|"+pad: 4+1+1+8+4+4 +1(hdr count) + 1 + (7+pad) = 31+pad
 		add(&WS{Name: "bytes-boundary", BatchSize: 10, BatchBytes: 100, MaxAttempts: 2, Acks: kafka.RequireOne, WriterTopic: "A",
 			Threads: [][]callSpec{{{Msgs: []msgSpec{{P: 0, Size: 19}, {P: 0, Size: 19}, {P: 0, Size: 18}}}, {Msgs: []msgSpec{{P: 0, Size: 69}, {P: 0, Size: 0}}}}, {{Msgs: []msgSpec{{P: 0, Size: 20}}}}}, Faults: []string{"err:6", "lost"}}, b)
